@@ -101,6 +101,23 @@ pub fn run(a: &Args) {
             match d.handles(&img) { Ok(v) => { r.z(v.len()); for h in &v { r.u(h.handle).u(h.attributes as u64); match &h.object_name { Ok(n) => { r.vec(n.as_bytes()); } Err(e) => { r.0 = format!("!handle name: {e}"); break; } } } } Err(e) => { r.0 = format!("!{e}"); } }
             out.case(l.s(), r.s(), fds.len() > 3); out.count_n("handles.descriptors", fds.len() as u64);
         }
+        // ---- platform and architecture do not depend on /proc/cpuinfo being readable (dump with the CpuInfoFileOpen fail point)
+        if case % 4 == 0 {
+            let pid = target.pid;
+            let r2 = run_forked(5000, move || {
+                let mut client = minidump_writer::FailSpotName::testing_client();
+                client.set_enabled(minidump_writer::FailSpotName::CpuInfoFileOpen, true);
+                let mut w = MinidumpWriter::new(pid, pid); let mut dest = std::io::Cursor::new(Vec::new());
+                let res = quiet_catch(std::panic::AssertUnwindSafe(|| w.dump(&mut dest).map_err(|e| format!("{e:?}"))));
+                client.set_enabled(minidump_writer::FailSpotName::CpuInfoFileOpen, false);
+                match res { Ok(Ok(img)) => match md::Dump::parse(&img).and_then(|d| d.system_info(&img)) { Ok(Some(si)) => format!("{} {}", si.arch, si.platform), Ok(None) => "!no system-info stream".into(), Err(e) => format!("!{e}") },
+                            Ok(Err(e)) => format!("!dump failed: {}", e.replace('\n', " ")), Err(p) => format!("!panic {p}") }
+            });
+            unsafe { libc::kill(target.pid, libc::SIGCONT); }
+            let mut l = Line::new("const"); l.u(9).u(0x8201);
+            let r = match r2 { Ok(t) if t.starts_with('!') => t, Ok(t) => { let mut r = Line::bare(); for x in t.split_whitespace() { r.u(x.parse::<u64>().unwrap_or(0xffff)); } r.0 }, Err(e) => format!("!dump did not return: {e}") };
+            out.case(l.s(), &r, true); out.count("sysinfo.cpuinfo_unreadable");
+        }
         // ---- system information
         if let Ok(Some(si)) = d.system_info(&img) {
             let mut l = Line::new("const"); l.u(9).u(0x8201);
